@@ -690,6 +690,9 @@ class Builder:
         else:
             def mt_pos():
                 das = [d for d in b.data_arrays if d.dtype.kind in "fiu"]
+                if rng.random() < 0.25:
+                    # positions / extents are not confined to the multi-tag's block: sometimes an array of another block
+                    das = [d for ob in self.f.blocks if ob.id != b.id for d in ob.data_arrays if d.dtype.kind in "fiu"] or das
                 x = self.pick(das)
                 if x is None:
                     return "skip"
